@@ -486,4 +486,69 @@ theorem tempAssigns_keeps : ∀ (items : List (Str × Lit)) (e : Env) (m : VMap)
         obtain ⟨m', r', hs⟩ := keepsL_head_command (h ▸ k1)
         simpa using KeepsL.trans k1 (ih e' m' r' hs)
 
+
+/-! ## element writers (readonly checked since the `assign_at_index` / `unset_index` repair) -/
+
+theorem assignAtIndex_fz (i s : Str) (ap : Bool) : Fz (fun v => v.assignAtIndex i s ap) := by
+  intro v h; simp [Var.assignAtIndex, h]
+
+theorem unsetIndex_fz (i : Str) : Fz (fun v => v.unsetIndex i) := by
+  intro v h; simp [Var.unsetIndex, h]
+
+theorem unsetIndex_keeps (e : Env) (n i : Str) : KeepsL e.scopes (e.unsetIndex n i).1.scopes := by
+  unfold Env.unsetIndex
+  exact match_modify_keeps e n _ _ (unsetIndex_fz i) _ (fun _ => KeepsL.refl _)
+
+theorem updateOrAddElem_keeps (e : Env) (n i s : Str) (k : Kind) :
+    KeepsL e.scopes (e.updateOrAddElem n i s .anywhere k).1.scopes := by
+  unfold Env.updateOrAddElem
+  refine match_modify_keeps e n _ _ (assignAtIndex_fz i s false) _ ?_
+  intro hm
+  have hu := modify_anywhere_none e n _ hm
+  simp only []
+  exact ite_keeps _ _ _ _ (add_keeps e n _ k hu) (KeepsL.refl _)
+
+theorem applyPlainIdx_keeps (e : Env) (n : Str) (idx : Option Str) (lit : Lit) (ap ex : Bool) :
+    KeepsL e.scopes (e.applyAssignment n idx lit ap ex none .global).1.scopes := by
+  unfold Env.applyAssignment
+  cases hg : e.get n with
+  | none =>
+    have hu : Unbound n e.scopes := getScopes_none n _ hg
+    cases idx <;> cases lit <;> simp <;> first | exact add_keeps e n _ _ hu | exact KeepsL.refl _
+  | some p =>
+    simp
+    refine match_modify_keeps e n _ _ ?_ _ (fun _ => KeepsL.refl _)
+    intro v h
+    cases idx <;> cases lit <;> simp [Var.assign, Var.assignAtIndex, h]
+
+theorem mset_same (m : VMap) (n : Str) (v : Var) (h : mget m n = some v) : mset m n v = m := by
+  induction m with
+  | nil => simp [mget] at h
+  | cons hd tl ih =>
+    obtain ⟨a, b⟩ := hd
+    simp only [mget] at h
+    simp only [mset]
+    split at h
+    · next h1 => cases h; subst h1; simp
+    · next h1 => simp [h1, ih h]
+
+/-- an update that refuses (returns the variable untouched) leaves the whole stack untouched -/
+theorem modPol_refused (n : Str) (f : Var → R) (k : Kind) (v : Var) (hf : f v = (v, false)) :
+    ∀ (s : List Scope) (lc : Nat), getScopes n s = some (k, v) → modPol n .anywhere f lc s = some (s, false) := by
+  intro s
+  induction s with
+  | nil => intro lc h; simp [getScopes] at h
+  | cons hd tl ih =>
+    intro lc h
+    obtain ⟨k', m⟩ := hd
+    simp only [getScopes] at h
+    cases hm : mget m n with
+    | some v' =>
+      simp only [hm] at h
+      cases h
+      simp [modPol, eligible, hm, hf, mset_same m n v hm]
+    | none =>
+      simp only [hm] at h
+      simp [modPol, eligible, hm, ih _ h]
+
 end BrushVerif.Env
